@@ -583,6 +583,19 @@ func (w *spWorld) oracleNoLeak(when string) {
 			if w.exempt[s] {
 				continue
 			}
+			if spState(s) == "closed" {
+				// a close by another goroutine (the callback goroutine) is in flight: state first, table next. Slow is not wrong.
+				gone := false
+				for deadline := time.Now().Add(10 * time.Second); time.Now().Before(deadline); time.Sleep(100 * time.Microsecond) {
+					if !spInTable(s) {
+						gone = true
+						break
+					}
+				}
+				if gone {
+					continue
+				}
+			}
 			// the listed class: PutBack while OnData runs, reset() succeeded (callbacks cleared); the stream is closed after
 			// that (pool full, or discarded later by getOrOpenStream) -> Close() is deferred to the callback goroutine
 			// without being armed
@@ -695,8 +708,28 @@ func (w *spWorld) cbQuiescent(s *Stream) bool {
 	if busy || atomic.LoadUint32(&s.callbackInProcess) == 1 {
 		return false
 	}
-	if atomic.LoadUint32(&s.callbackCloseState) == uint32(callbackWaitExit) && spState(s) != "closed" {
-		return false
+	if atomic.LoadUint32(&s.callbackCloseState) == uint32(callbackWaitExit) {
+		// the goroutine performs the close: closed, out of the table, buffers given back
+		if spState(s) != "closed" || (spInTable(s) && !s.session.IsClosed()) {
+			return false
+		}
+		s.recvBuf.recycleMux.Lock()
+		s.recvBuf.recycleMux.Unlock()
+		s.sendBuf.recycleMux.Lock()
+		n := s.sendBuf.sliceList.size() + s.recvBuf.sliceList.size()
+		s.sendBuf.recycleMux.Unlock()
+		if n != 0 {
+			return false
+		}
+	}
+	return true
+}
+
+func (w *spWorld) cbReturnedAll(s *Stream) bool {
+	for _, c := range w.allCbs {
+		if c.s == s && atomic.LoadInt32(&c.calls) != atomic.LoadInt32(&c.retN) {
+			return false
+		}
 	}
 	return true
 }
@@ -722,6 +755,11 @@ func (w *spWorld) waitCb() {
 				}
 			}
 			time.Sleep(50 * time.Microsecond)
+		}
+		if !ok && atomic.LoadUint32(&c.s.callbackInProcess) == 0 && w.cbReturnedAll(c.s) {
+			// the goroutine HAS left; a deferred, armed close that it did not perform within 20 s is not going to happen:
+			// the state is stable and the oracles judge it (the stream is half-closed in the table)
+			ok = true
 		}
 		if !ok {
 			w.fail("hang", fmt.Sprintf("the callback goroutine of stream %d neither waits in OnData nor finishes (in process %d, close armed %d, state %s)",
@@ -1348,7 +1386,13 @@ func (w *spWorld) finish() {
 			w.fail("leak-server", fmt.Sprintf("every stream of session %d is closed on both ends but the server still counts %d", pi+1, n))
 			return
 		}
-		if used := p.inUse(p.A); used != 0 {
+		used := p.inUse(p.A)
+		if len(w.allCbs) > 0 {
+			for deadline := time.Now().Add(10 * time.Second); used != 0 && time.Now().Before(deadline); time.Sleep(200 * time.Microsecond) {
+				used = p.inUse(p.A) // (a callback goroutine may still be giving buffers back)
+			}
+		}
+		if used != 0 {
 			w.fail("leak-buffers", fmt.Sprintf("every stream of session %d is closed on both ends but %d shared-memory buffer(s) are still allocated", pi+1, used))
 			return
 		}
